@@ -392,7 +392,7 @@ impl<'p> CoroutinePool<'p> {
             return Ok(());
         }
         let create_time = now();
-        self.submit_co(
+        self.submit_worker_co(
             move |suspender, ()| {
                 loop {
                     let pool = Self::current().expect("current pool not found");
@@ -429,6 +429,19 @@ impl<'p> CoroutinePool<'p> {
     /// # Errors
     /// if create failed.
     pub fn submit_co(
+        &self,
+        f: impl FnOnce(&Suspender<(), ()>, ()) -> Option<usize> + 'static,
+        stack_size: Option<usize>,
+        priority: Option<c_longlong>,
+    ) -> std::io::Result<()> {
+        if PoolState::Running != self.state() {
+            // like `submit_task`: nothing new is accepted once stopping has begun
+            return Err(Error::other("The coroutine pool is stopping or stopped !"));
+        }
+        self.submit_worker_co(f, stack_size, priority)
+    }
+
+    fn submit_worker_co(
         &self,
         f: impl FnOnce(&Suspender<(), ()>, ()) -> Option<usize> + 'static,
         stack_size: Option<usize>,
